@@ -86,28 +86,29 @@ type timer struct {
 }
 
 type sched struct {
-	active    bool
-	teardown  bool
-	chooser   Chooser
-	threads   []*thread
-	cur       *thread
-	steps     int
-	maxSteps  int
-	points    int
-	noPreempt int
-	finished  chan Outcome
-	ended     bool
-	monitor   func()
-	nowMs     int64
-	timers    []*timer
-	timerSeq  int
-	timerBudg int
-	chans     map[uintptr]*chanState
-	trace     []string
-	tracing   bool
-	symmetric []string
-	idleFires int
-	freeCost  int
+	active      bool
+	teardown    bool
+	chooser     Chooser
+	threads     []*thread
+	cur         *thread
+	steps       int
+	maxSteps    int
+	points      int
+	noPreempt   int
+	finished    chan Outcome
+	ended       bool
+	monitor     func()
+	nowMs       int64
+	timers      []*timer
+	timerSeq    int
+	timerBudg   int
+	chans       map[uintptr]*chanState
+	trace       []string
+	tracing     bool
+	symmetric   []string
+	idleFires   int
+	freeCost    int
+	noStmtYield bool
 }
 
 var s = &sched{}
@@ -129,6 +130,8 @@ type Config struct {
 	// cost, as in preemption bounding; 1: every departure from the default
 	// schedule costs, i.e. delay bounding - used for scenarios with many threads).
 	FreeSwitchCost int
+	// NoStmtYield switches the statement-level scheduling points (StmtYield) off.
+	NoStmtYield bool
 }
 
 // Steps returns the number of scheduling steps taken so far in this execution.
@@ -150,7 +153,7 @@ func Run(cfg Config, ch Chooser, main func()) Outcome {
 	}
 	*s = sched{active: true, chooser: ch, maxSteps: cfg.MaxSteps, monitor: cfg.Monitor,
 		nowMs: cfg.StartMs, timerBudg: cfg.TimerBudget, finished: make(chan Outcome, 1),
-		chans: map[uintptr]*chanState{}, tracing: cfg.Trace, symmetric: cfg.Symmetric, freeCost: cfg.FreeSwitchCost}
+		chans: map[uintptr]*chanState{}, tracing: cfg.Trace, symmetric: cfg.Symmetric, freeCost: cfg.FreeSwitchCost, noStmtYield: cfg.NoStmtYield}
 	if s.maxSteps == 0 {
 		s.maxSteps = 200000
 	}
@@ -347,6 +350,18 @@ func ChooseDeviation(n int, label string) int {
 
 // Yield is a visible no-op (a pure scheduling point).
 func Yield() { point("yield", nil) }
+
+// StmtYield is the scheduling point that the instrumenter puts before every
+// statement of the functions selected by "yieldFuncs"; Config.NoStmtYield
+// switches these points off for an execution (the same binary can then explore
+// a scenario at synchronisation-operation granularity with a deeper bound and
+// at statement granularity with a smaller one).
+func StmtYield() {
+	if s.noStmtYield {
+		return
+	}
+	point("yield", nil)
+}
 
 // Abort ends the execution from inside a thread (e.g. harness found what it
 // needed or wants to cut a scenario); never returns.
